@@ -140,7 +140,7 @@ func main() {
 
 	// ---- mutated valid streams ----
 	sizes := []int{4, 8, 12, 16, 24, 64, 500, 504, 508, 512, 516}
-	nm := c.N(2000, 40000)
+	nm := c.N(2000, 12000)
 	for i := 0; i < nm; i++ {
 		cid := c.Rng.Intn(4)
 		seq := int64(0)
@@ -207,7 +207,7 @@ func main() {
 	}
 
 	// ---- random bytes ----
-	for i := 0; i < c.N(400, 10000); i++ {
+	for i := 0; i < c.N(400, 3000); i++ {
 		one("random", c.Rng.Intn(4), int64(c.Rng.Intn(3)), c.Rng.Bytes(c.Rng.Range(0, 48)))
 	}
 
